@@ -1411,8 +1411,10 @@ class RealBackend(object):
         # drop the harness' own references to tasks, as user code leaving scope would, so that
         # abandoned (never completed) generators are finalised here, at a fixed trace point
         self.root_error = None
+        self.root_computed = False
         if self.root is not None and self.root.task is not None and self.root.task.is_computed():
             self.root_error = self.root.task._error
+            self.root_computed = True
         if self.probe_rng is not None and self.probe_rate:
             self._probe_all("end of computation")
         if self.outcome_rate:
